@@ -196,7 +196,28 @@ def x_vt(b, rec):
 
 
 def x_opt(b, rec):
-    """X-opt: O.map(|c| E).unwrap_or(D) -> match."""
+    """X-opt: O.map(|c| E).unwrap_or(D), O.is_none_or(|c| E), O.is_some_and(|c| E), O.map_or(D, |c| E) -> match."""
+    for (meth, dflt) in (('is_none_or', 'true'), ('is_some_and', 'false')):
+        pat2 = re.compile(r'((?:\w+\.)*\w+)\s*\.%s\(\|(\w+)\|\s*' % meth)
+        while True:
+            m = pat2.search(b)
+            if not m:
+                break
+            i = b.index('(', m.start() + len(m.group(1)))
+            j = match_close(b, i, '(', ')')
+            body = b[m.end():j].strip()
+            b = b[:m.start()] + '(match %s { Some(%s) => %s, None => %s })' % (m.group(1), m.group(2), body, dflt) + b[j + 1:]
+            rec.rule('X-opt')
+    pat3 = re.compile(r'((?:\w+\.)*\w+)\s*\.map_or\(\s*(true|false)\s*,\s*\|(\w+)\|\s*')
+    while True:
+        m = pat3.search(b)
+        if not m:
+            break
+        i = b.index('(', m.start() + len(m.group(1)))
+        j = match_close(b, i, '(', ')')
+        body = b[m.end():j].strip()
+        b = b[:m.start()] + '(match %s { Some(%s) => %s, None => %s })' % (m.group(1), m.group(3), body, m.group(2)) + b[j + 1:]
+        rec.rule('X-opt')
     pat = re.compile(r'(\w+)\s*\.map\(\|(\w+)\|\s*')
     while True:
         m = pat.search(b)
@@ -340,8 +361,9 @@ def x_take(b, rec):
 
 
 def x_f64(b, rec):
-    b, k = re.subn(r'\(?self\.metrics\.allocation_debt\(\) > 0\.0\)?', 'self.metrics.debt_gt_zero()', b)
-    if k:
+    b, k1 = re.subn(r'\(self\.metrics\.allocation_debt\(\) > 0\.0\)', 'self.metrics.debt_gt_zero()', b)
+    b, k2 = re.subn(r'self\.metrics\.allocation_debt\(\) > 0\.0', 'self.metrics.debt_gt_zero()', b)
+    if k1 or k2:
         rec.rule('X-f64')
     return b
 
@@ -457,17 +479,78 @@ def context_impl(src):
     return src[i + 1:j]
 
 
+KNOWN_ACCESSORS = {'new', 'mutation_context', 'finalization_context', 'metrics', 'phase'}
+
+
+def inline_helpers(impl, rec_notes):
+    """X-inline: a private helper method of `impl Context` that the contracts do not speak about (e.g. produced by an 'extract method'
+    refactoring) is inlined at its call sites: `self.h(a, b);` -> `{ let p = a; let q = b; BODY }`.  Only for helpers without `return`,
+    called as statements; anything else is Unsupported.  Returns (impl text with helpers removed and calls inlined, [names])."""
+    names = re.findall(r'\n    (?:#\[[^\]]*\]\s*)*(?:pub(?:\([a-z]+\))? )?(?:unsafe )?fn (\w+)', impl)
+    unknown = [n for n in names if n not in CONTEXT_FNS and n not in KNOWN_ACCESSORS]
+    done = []
+    for h in unknown:
+        sig, body, st, en = find_fn(impl, h)
+        m = re.search(r'fn %s\s*\(([^)]*)\)\s*(->\s*[^{]+)?$' % h, ' '.join(sig.split()))
+        if not m or re.search(r'\breturn\b', body):
+            raise Unsupported('impl Context has a helper `%s` the contracts do not speak about and that cannot be inlined' % h)
+        is_expr = bool(m.group(2))
+        if is_expr and ';' in body.strip().rstrip(';'):
+            raise Unsupported('helper `%s` returns a value and is not a single expression: cannot be inlined' % h)
+        params = [p.strip() for p in m.group(1).split(',') if p.strip()]
+        is_method = bool(params) and re.match(r'&(mut )?self$', params[0])
+        pn = [p.split(':')[0].strip() for p in (params[1:] if is_method else params)]
+        # remove the helper (and its attributes)
+        a0 = st
+        while True:
+            pre = impl[:a0].rstrip()
+            am = re.search(r'#\[[^\]]*\]$', pre)
+            if not am:
+                break
+            a0 = am.start()
+        impl = impl[:a0] + impl[en:]
+        # a helper passed by name to Option::map: `.map(Self::h)` -> `.map(|x| Self::h(x))`
+        impl = re.sub(r'\.map\(Self::%s\)' % h, '.map(|hx| Self::%s(hx))' % h, impl)
+        callre = re.compile(r'\b(?:self\.|Self::)%s\(' % h)
+        while True:
+            cm = callre.search(impl)
+            if not cm:
+                break
+            i = cm.end() - 1
+            j = match_close(impl, i, '(', ')')
+            args = [x.strip() for x in re.split(r',(?![^()]*\))', impl[i + 1:j]) if x.strip()]
+            if len(args) != len(pn):
+                raise Unsupported('helper `%s`: call shape outside the supported subset' % h)
+            lets = ' '.join('let %s = %s;' % (p, a) for p, a in zip(pn, args))
+            flat = ' '.join(body.split())
+            if is_expr:
+                impl = impl[:cm.start()] + '({ ' + lets + ' ' + flat + ' })' + impl[j + 1:]
+            else:
+                if not impl[j + 1:].lstrip().startswith(';'):
+                    raise Unsupported('helper `%s`: call shape outside the supported subset' % h)
+                k = impl.index(';', j)
+                impl = impl[:cm.start()] + '{ ' + lets + ' ' + flat + ' }' + impl[k + 1:]
+        done.append(h)
+    return impl, done
+
+
 def extract_context(path, rec):
     """Returns dict key -> dict(sig, body, hoisted, guard_drop)."""
     raw = open(path).read()
     src = strip_comments(raw)
     out = {}
     impl = context_impl(src)
+    impl, inlined = inline_helpers(impl, rec)
     for fn in CONTEXT_FNS:
         key = 'context.' + fn
         rec.begin(key, 'src/context.rs::impl Context::' + fn)
         sig, body, _, _ = find_fn(impl, fn, 'Context::' + fn)
         body = dedent(body, 4)
+        for h in inlined:
+            if ('let ' in body) and re.search(r'\{ (let \w+ = [^;]+; )+', body) and h:
+                pass
+        if inlined:
+            rec.cur.setdefault('inlined_helpers', inlined)
         guard_drop = None
         if fn == 'mark_one':
             body, guard_drop = x_dropguard(body, rec)
@@ -579,6 +662,14 @@ def extract_metrics(path, rec):
                     raise Unsupported('Metrics::%s: counter update outside the supported subset: %s' % (fn, m.group(0)))
                 f = 'counter_add' if mm.group(1) == '+' else 'counter_sub'
                 return 'self.%s = %s(self.%s, %s);' % (fld, f, fld, mm.group(2))
+            def getset(m):
+                fld, fld2, op, e = m.group(1), m.group(2), m.group(3), m.group(4)
+                if fld != fld2 or fld not in COUNTERS or not re.match(r'^\w+$', e):
+                    raise Unsupported('Metrics::%s: counter update outside the supported subset: %s' % (fn, m.group(0)))
+                return 'self.%s = %s(self.%s, %s);' % (fld, 'counter_add' if op == '+' else 'counter_sub', fld, e)
+            body, k0 = re.subn(r'self\.0\.(\w+)\.set\(self\.0\.(\w+)\.get\(\) ([+-]) (\w+)\);', getset, body)
+            if k0:
+                rec.rule('X-cell')
             body, k = re.subn(r'self\.0\.(\w+)\.update\(\|(\w+)\|([^)]*)\);', upd, body)
             body, k2 = re.subn(r'self\.0\.(\w+)\.get\(\)', r'self.\1', body)
             if k or k2:
